@@ -341,7 +341,24 @@ def edit_oracle(data, new, is_file_write, res, after, reread, lenient_no_break=F
     same_decl = (spec_exp is not None and codecs.lookup(spec_exp[0]).name == codecs.lookup(enc_name).name
                  and spec_exp[1] == new)
     if not same_decl:
-        # the edit changed the declaration itself (or left the property): only "reads back equal" remains
+        # the edit changed the declaration itself: the file has to become the new text under its NEW declaration
+        # (what CPython reads from the new text's first two lines, UTF-8 without one), in the old convention
+        norm_new = new.encode("utf-8", "replace")
+        raw = py_cookie_name(norm_new.split(b"\n", 2)[:2])
+        try:
+            enc2 = codecs.lookup(raw).name if raw is not None else "utf-8"
+            expected2 = [new.replace("\n", nl).encode(enc2) for nl in nls]
+            spec2 = spec_of_bytes(expected2[0])
+        except (LookupError, UnicodeError):
+            spec2 = None
+        if spec2 is not None and spec2[1] == new and codecs.lookup(spec2[0]).name == enc2:
+            if res != 0:
+                return "inside-redeclared", "write of a text encodable under its own declaration was not performed (outcome %s %s)" % (res, exc)
+            if after not in expected2:
+                return "inside-redeclared", "bytes after an edit that changes the declaration are not the new text in the NEW declared encoding %s" % enc2
+            if reread != new:
+                return "inside-redeclared", "text written through rope does not read back equal"
+            return "inside-redeclared", None
         if res == 0:
             spec_after = spec_of_bytes(after)
             if spec_after is not None and reread != new:
@@ -657,6 +674,9 @@ def signature(obj):
     if kind == "session":
         from harness import c16_sessions
         return c16_sessions.signature(obj)
+    if kind == "refactor-file":
+        from harness import c16_refactor
+        return c16_refactor.signature(obj)
     if kind == "reopen-undo":
         return "stale-newlines:File.newlines unset when old_contents is supplied"
     if kind == "refactor":
@@ -812,6 +832,9 @@ def replay(ctx, obj):
     if kind == "session":
         from harness import c16_sessions
         return c16_sessions.replay(ctx, obj)
+    if kind == "refactor-file":
+        from harness import c16_refactor
+        return c16_refactor.replay(ctx, obj)
     if kind == "refactor":
         text = "".join(chr(c) for c in obj["text"])
         data, after, expected = check_refactoring(obj["refactoring"], obj["encoding"], obj["newline"], text)
@@ -834,9 +857,11 @@ def replay(ctx, obj):
 
 
 # --------------------------------------------------------------------------------------------- run
-def evaluate(ctx, cases, impl):
-    """Runs rope, the model (in Coq) and the oracle on the cases; returns (results, mismatch codes by index)."""
-    results = [impl.run(c["data"], c["op"], c["new"]) for c in cases]
+def evaluate(ctx, cases, impl, results=None):
+    """Runs rope (unless the results are supplied), the model (in Coq) on the cases; returns (results, mismatch codes
+    by index, whether the harness expected the model not to implement a codec of the case)."""
+    if results is None:
+        results = [impl.run(c["data"], c["op"], c["new"]) for c in cases]
     shard = 250
     bodies, expected_unmodelled = [], []
     for s in range(0, len(cases), shard):
@@ -968,8 +993,9 @@ def run(ctx):
                         "outcome": r["res"], "after": repr(r["after"])[:200]})
     finally:
         impl.close()
-    from harness import c16_sessions
+    from harness import c16_sessions, c16_refactor
     c16_sessions.run(ctx)
+    c16_refactor.run(ctx)
     # real refactorings as the edit (oracle only: bytes on disk = original bytes with the intended edit)
     for which in ("rename", "extract_variable"):
         for enc_name, nl, text in refactoring_cases():
